@@ -253,6 +253,11 @@ def main_check(plugin, tier, replay=None):
     evid_dir = os.path.join(VERIF, "evidence")
     os.makedirs(evid_dir, exist_ok=True)
     os.makedirs(BUILD, exist_ok=True)
+    if replay is None:
+        # replay files describe THIS run: drop the ones an earlier run left behind
+        import glob
+        for old in glob.glob(os.path.join(evid_dir, "%s.replay.*.json" % pid)):
+            os.remove(old)
     broken = []          # proof obligations / correspondences that no longer check
     violations = []      # (description, replay_path)
     diagnostics = []
